@@ -7,6 +7,7 @@ import ScnrVerif.Model.Class
 import ScnrVerif.Model.World
 import ScnrVerif.Model.Build
 import ScnrVerif.Model.Json
+import ScnrVerif.Model.Dot
 import Std.Data.HashMap
 /-!
 # Line-protocol driver for the executable model (`lake exe scnr_model < case.in`)
@@ -122,6 +123,10 @@ def parseFindItem (s : String) : Option (Nat × Option (Nat × Nat)) :=
     | _, _, _ => none
   | _ => none
 
+def showDGraph (g : DGraph) : String :=
+  s!" {g.nodes.length}" ++ String.join (g.nodes.map fun n => s!" {n.id} {n.kind} {n.tid}") ++
+  s!" {g.edges.length}" ++ String.join (g.edges.map fun e => s!" {e.src} {e.dst} {e.cc}")
+
 def parseTok (s : String) : Option Tok :=
   match (s.splitOn ":").map String.toNat? with
   | [some t, some a, some b] => some ⟨t, a, b⟩
@@ -147,6 +152,20 @@ def specVerdict (st : DState) (real : List String) : Array SpecIt × Option Stri
   | _, ["findpanic"] => (sp, some "S FAIL the real crate panicked in find_from")
   | _, ["buildpanic"] => (sp, some "S FAIL the real crate panicked while building the scanner")
   | _, ["runaway"] => (sp, some "S FAIL the real iterator yields more tokens than the input has characters")
+  | ["dot", _], "dot" :: "malformed:" :: r =>
+    (sp, some ("S FAIL the written file is not well-formed DOT: " ++ " ".intercalate r))
+  | ["dot", _], "dot" :: "undecodable:" :: r =>
+    (sp, some ("S FAIL the written DOT does not have the documented structure: " ++ " ".intercalate r))
+  | ["dot", m], "dot" :: r =>
+    (sp, match m.toNat?.bind fun m => st.modes[m]? with
+      | some M =>
+        let d := dotDoc M
+        let cl := (d.clusters.toArray.qsort fun a b => a.tid < b.tid).toList
+        let want := (showDGraph d.main ++ s!" {cl.length}" ++
+          String.join (cl.map fun c => s!" {c.tid} {if c.positive then 1 else 0}" ++ showDGraph c.g))
+        some (if " " ++ " ".intercalate r == want then "S ok"
+              else "S FAIL the picture differs from the compiled automaton (nodes, accepting labels, edges, class ids or lookahead clusters)")
+      | none => none)
   | ["bbuild"], ["build", r] =>
     let modes := (st.bmodes.map List.reverse).reverse
     let sup := allSupported modes
@@ -798,6 +817,14 @@ def step (st : DState) (line : String) : DState × Option String :=
       | [some t, some a, some b, some l1, some c1, some l2, some c2] =>
         "json" ++ showJson (toJsonMatchExt ⟨t, ⟨a, b⟩, ⟨l1, c1⟩, ⟨l2, c2⟩⟩)
       | _ => "bad-op"))
+  | ["dot", m] =>
+    (st, some (match m.toNat?.bind fun m => st.modes[m]? with
+      | some M =>
+        let d := dotDoc M
+        let cl := (d.clusters.toArray.qsort fun a b => a.tid < b.tid).toList
+        "dot" ++ showDGraph d.main ++ s!" {cl.length}" ++
+          String.join (cl.map fun c => s!" {c.tid} {if c.positive then 1 else 0}" ++ showDGraph c.g)
+      | none => "bad-op"))
   | "input" :: r => ({ st with input := nats r, iters := #[], specs := #[], table := #[] }, none)
   | ["finder", "model"] => ({ st with useTable := false }, none)
   | ["finder", "table"] => ({ st with useTable := true }, none)
